@@ -2,7 +2,10 @@ module verif/engine
 
 go 1.23
 
-require golang.org/x/tools v0.29.0
+require (
+	golang.org/x/crypto v0.0.0-20211202192323-5770296d904e
+	golang.org/x/tools v0.29.0
+)
 
 require (
 	golang.org/x/mod v0.22.0 // indirect
